@@ -156,8 +156,11 @@ class Models:
         es = seq.arr.sort().range()
         nm = "vsum_%s" % ("int" if es == INT else "real")
         key = "rec!" + nm
+        if key in GLOBAL_REC:
+            ctx.ufs[key] = GLOBAL_REC[key]
         if key not in ctx.ufs:
             f = z3.RecFunction(nm, z3.ArraySort(INT, es), INT, INT, es)
+            GLOBAL_REC[key] = f
             a = z3.Const(nm + "!a", z3.ArraySort(INT, es))
             lo, hi = z3.Ints(nm + "!lo " + nm + "!hi")
             zero = z3.IntVal(0) if es == INT else z3.RealVal(0)
@@ -279,8 +282,11 @@ class Models:
 
     def seq_method(self, it, ref, o, name, args, kwargs, node):
         if name == "append":
+            old_arr, old_hi = o.arr, o.hi
             o.arr = z3.Store(o.arr, o.hi, it.elem_term(args[0], o.elem))
             o.hi = z3.simplify(o.hi + 1)
+            from . import seqs
+            seqs.note_append(it, o, old_arr, old_hi)
             return None
         if name == "copy":
             return it.run.alloc(HSeq(o.arr, o.lo, o.hi, o.elem))
@@ -591,7 +597,8 @@ class Models:
         E = self.ext
 
         def sqrt_ax(ctx, f, x, t, others):
-            ctx.fact(z3.Implies(x >= 0, z3.And(t >= 0, t * t == x)), key=("sqrt", x.sexpr()))
+            # sqrt is total here: non-negative everywhere (arbitrary on negatives, where numpy yields NaN: A-REAL)
+            ctx.fact(z3.And(t >= 0, z3.Implies(x >= 0, t * t == x)), key=("sqrt", x.sexpr()))
             for o in others:
                 if not o.eq(x):
                     ctx.fact(z3.And(z3.Implies(z3.And(o >= 0, o <= x), f(o) <= t),
@@ -600,7 +607,7 @@ class Models:
 
         def np_sqrt(self, it, args, kw, fr, node):
             v = it.run.num(args[0])
-            self.note(it, "axiom:sqrt (x>=0 -> sqrt(x)>=0 and sqrt(x)^2=x; monotone; sqrt of a negative unconstrained)")
+            self.note(it, "axiom:sqrt (sqrt(x)>=0; x>=0 -> sqrt(x)^2=x; monotone on non-negatives; arbitrary non-negative value on negatives)")
             if isinstance(v, SArr1):
                 return SArr1(self.real_uf1(it, "sqrt", v.val, sqrt_ax), v.ndim)
             return self.real_uf1(it, "sqrt", v, sqrt_ax)
@@ -670,6 +677,8 @@ def _det_drift_state(models, it, base, node):
 
 
 OPAQUE_ATTRS = {("Det", "drift_state"): _det_drift_state}
+
+GLOBAL_REC = {}
 
 HOOKS = {k: [] for k in ("binop", "cmp", "attr", "getitem", "getslice", "setitem", "setslice", "comp",
                          "iter_symbolic", "make_symbolic", "method", "len", "minmax1", "sum", "list", "dict",
